@@ -121,6 +121,11 @@ def main(argv=None):
         if r.get("error"):
             if r["error"].startswith("engine-fault"):
                 faults.append(r)
+            elif r.get("qualname") and r["error"].startswith("unsupported"):
+                # engine limit on this (possibly changed) source: not a verdict by proof; the unit's replay harness still
+                # searches the real code for a failing input (DESIGN I.11: seeded concrete search) -> VIOLATION if one is found
+                obligations.append({"name": f"{r['unit']}:within-engine-subset", "status": "UNDECIDED", "ms": 0, "backends": [], "queries": 0,
+                                    "unit": r["unit"], "failed": [{"status": "UNDECIDED", "reason": r["error"], "path": ""}]})
             else:
                 undecided.append({"unit": r["unit"], "reason": r["error"]})
         for o in r["obligations"]:
@@ -182,7 +187,8 @@ def main(argv=None):
                 if ledger.get(o["name"]) == "PROVED" and rr.get("ran") and rr.get("searched"):
                     undecided.append({"unit": o.get("unit"), "reason": f"obligation {o['name']} not proved (solver: unknown), no failing input in search"})
                 else:
-                    undecided.append({"unit": o.get("unit"), "reason": f"obligation {o['name']} {o['status']}"})
+                    why = (o.get("failed") or [{}])[0].get("reason", "") if o["name"].endswith(":within-engine-subset") else ""
+                    undecided.append({"unit": o.get("unit"), "reason": f"obligation {o['name']} {o['status']}" + (f" ({why}); no failing input in the replay search" if why else "")})
     # obligations that the ledger knows but that were not generated
     names = {o["name"] for o in obligations}
     missing = [n for n in ledger if n not in names] if not a.only else []
